@@ -71,6 +71,9 @@ type Op struct {
 	Del bool
 	ID  int
 	Qry bool
+	// Silent (C11 only; wire: lower-case i<id> / d<id>): the operation is performed but no step
+	// (dump, Size, Depth, answers) is reported for it - used to reach thousands of stored objects.
+	Silent bool
 }
 
 type KQ struct {
@@ -99,6 +102,10 @@ func (h *Hist) String() string {
 	for _, o := range h.Ops {
 		if o.Qry {
 			fmt.Fprintf(&b, " Q%d", o.ID)
+		} else if o.Del && o.Silent {
+			fmt.Fprintf(&b, " d%d", o.ID)
+		} else if o.Silent {
+			fmt.Fprintf(&b, " i%d", o.ID)
 		} else if o.Del {
 			fmt.Fprintf(&b, " D%d", o.ID)
 		} else {
@@ -148,7 +155,7 @@ func Parse(line string) *Hist {
 		if err != nil {
 			panic(err)
 		}
-		h.Ops = append(h.Ops, Op{Del: s[0] == 'D', ID: id, Qry: s[0] == 'Q'})
+		h.Ops = append(h.Ops, Op{Del: s[0] == 'D' || s[0] == 'd', ID: id, Qry: s[0] == 'Q', Silent: s[0] == 'i' || s[0] == 'd'})
 	}
 	if p.Next() != "Q" {
 		panic("Q expected")
@@ -173,7 +180,11 @@ func (h *Hist) Objects() ([]geom.Geom, map[geom.Geom]int) {
 	objs := make([]geom.Geom, len(h.Pool))
 	ids := map[geom.Geom]int{}
 	for i, b := range h.Pool {
-		switch h.Kind {
+		k := h.Kind
+		if k == "mix" { // all three dynamic types in one tree (== between different types is false)
+			k = []string{"ptr", "bnd", "pt"}[i%3]
+		}
+		switch k {
 		case "pt":
 			objs[i] = geom.Point{X: b.MinX, Y: b.MinY}
 		case "bnd":
